@@ -5,6 +5,22 @@ C03 — the MKVS tree and overlays behave as an ordered map.
 Theorems about the trie model `OasisModel.Mkvs.Trie` (mirror of insert.go / remove.go / lookup.go),
 for arbitrary byte-string keys and values and every operation history.  The Go tree is tied to the
 model by the mkvsdrv correspondence (every answer and every committed root hash, byte for byte).
+
+What is proved here: the trie (`trie_refines_smap`), the tree object with its pending write log
+(`pending_log_consistent`, `tree_object_refines`), one overlay over any inner ordered map
+(`overlay_refines`, incl. the merge iterator) and stacks of overlays of any depth for every history
+of operations / new / commit / discard (`overlay_stack_refines`); in-order traversal sorted and
+seek = suffix of the sorted list (`inorder_sorted`, `seek_is_suffix`).
+
+TODO (stated, not proved — DESIGN §5 C03 `iter_machine_eq_successor`): the *tree* iterator is
+modelled at specification level (`Stack.iter` base case = `SMap.seekGE` of the in-order traversal);
+the visit-state machine of iterator.go:228-310 (`visitBefore/At/AtLeft/After`, the `pos` stack,
+`takeFirst`, `AppendBit`/`advanceKeyToRight` on the seek key) is not modelled in Lean. Full statement:
+  for every canonical trie `t` and seek key `s`, `Seek s` followed by `Next`* through that machine
+  yields exactly `SMap.seekGE t.toList s`.
+It is covered only by the correspondence (every `iter` answer of the real iterator, on every handle,
+is compared with `SMap.seekGE`) and by the Go sorted-map reference. Not in the model either:
+`OverlayTree.Copy`, iterators interleaved with writes inside one iteration, the node cache.
 -/
 namespace OasisProofs.C03
 open OasisModel.Mkvs OasisProofs.Mkvs
@@ -37,6 +53,26 @@ theorem removeExisting_refines (t : Trie) (h : WF t) (k : Bytes) :
 /-- In-order traversal (own leaf, left, right) is strictly ascending in byte order, so iteration
 from a seek key is the suffix of keys ≥ seek of the ordered map. -/
 theorem inorder_sorted (t : Trie) (h : WF t) : SMap.Sorted t.toList := wf_sorted h
+
+/-- Seek on an ordered map: the items with key ≥ `s` are a *suffix* of the ascending list — the
+list from the first key that is not below `s` on — so `Seek s` positions at the least key ≥ `s`
+and `Next` walks the successors. (The model's iteration is `SMap.seekGE` of the traversal.) -/
+theorem seek_is_suffix (m : List KV) (hm : SMap.Sorted m) (s : Bytes) :
+    SMap.seekGE m s = m.dropWhile (fun kv => decide (kv.1 < s)) := by
+  induction m with
+  | nil => rfl
+  | cons x m ih =>
+    obtain ⟨hx, hm'⟩ := smap_sorted_cons.1 hm
+    simp only [SMap.seekGE, List.filter_cons, List.dropWhile_cons]
+    by_cases h : x.1 < s
+    · simp only [h, decide_true, Bool.not_true, Bool.false_eq_true, if_false, if_true]
+      exact ih hm'
+    · simp only [h, decide_false, Bool.not_false, if_true, Bool.false_eq_true, if_false]
+      congr 1
+      apply List.filter_eq_self.2
+      intro y hy
+      have : ¬ y.1 < s := fun hlt => h (bytes_lt_trans (hx y hy) hlt)
+      simp [this]
 
 /-- Map laws, read directly on the tree: get after insert. -/
 theorem get_insert (t : Trie) (h : WF t) (k v k' : Bytes) :
